@@ -208,6 +208,10 @@ def run(ctx):
             d = drops_mask(st.value)
             if d is not None:
                 badm = (st, d)
+            # joining the selected points: numpy.concatenate returns a plain ndarray for masked inputs (frozen numpy fact)
+            for c in walk_expr(st.value):
+                if isinstance(c, ast.Call) and dotted(c.func) in ('np.concatenate', 'numpy.concatenate', 'np.stack', 'np.vstack', 'np.hstack'):
+                    badm = (st, c.func)
     if badm:
         ctx.violation(Finding('R-MASKKEEP', RP, Q, badm[0], 'the selected values pass through %s before they are stored: masked cells of the selection come back unmasked' % norm(badm[1])[:50]))
     else:
